@@ -7,7 +7,11 @@
 //!                                                       path chains on all strings up to ulen
 //!        rand <seed> <n> <maxlen> [ops]                long random strings with planted matches
 //!        case <seed> <_> <hex x> <hex y> [ops]         one literal pair (replay)
-//! ops: comma list of find,match,matchstr,ends,path,tight (default: all but tight). `tight` adds an
+//! ops: comma list of find,match,matchstr,ends,path,bytes,tight (default: all but tight). `bytes` is the
+//! pass for operations taking caller bytes (&[u8] / &str): needles over {00,'a','/',FF} incl. needles that
+//! start with / contain / end in NUL and needles one longer than the content (the terminator position);
+//! every search runs twice on a haystack that is a sub-slice of a larger buffer with two different
+//! continuations: an answer that differs is `result-depends-on-memory-after-haystack`. `tight` adds an
 //! empty/short &str that ends exactly at the end of its heap allocation (for Miri / ASan only).
 use h_unixstr::refm::Want;
 use h_unixstr::*;
@@ -25,10 +29,11 @@ struct Ops {
     ends: bool,
     path: bool,
     tight: bool,
+    bytes: bool,
 }
 impl Ops {
     fn parse(s: Option<&String>) -> Ops {
-        let s = s.map_or("find,match,matchstr,ends,path", |s| s.as_str());
+        let s = s.map_or("find,match,matchstr,ends,path,bytes", |s| s.as_str());
         let has = |k: &str| s.split(',').any(|p| p == k);
         Ops {
             find: has("find"),
@@ -37,6 +42,7 @@ impl Ops {
             ends: has("ends"),
             path: has("path"),
             tight: has("tight"),
+            bytes: has("bytes"),
         }
     }
 }
@@ -331,6 +337,190 @@ fn pair(st: &mut St, x: &[u8], y: &[u8]) {
     }
 }
 
+// ------------------------------------------------------------------------------------------
+// caller-supplied bytes: find_buf (&[u8]) and match_up_to_str (&str), plus find as a sibling
+const HAY_BYTES: [u8; 3] = [b'a', b'/', 0xFF];
+const NEEDLE_BYTES: [u8; 4] = [0x00, b'a', b'/', 0xFF];
+
+/// The bytes a search that runs over the end of `raw` would like to see next: the rest of the
+/// needle after the longest suffix of `raw` that is a proper prefix of the needle.
+fn wanted_continuation(raw: &[u8], needle: &[u8]) -> Vec<u8> {
+    let mut c: Vec<u8> = Vec::new();
+    for i in 0..raw.len() {
+        let suf = &raw[i..];
+        if suf.len() < needle.len() && needle.starts_with(suf) {
+            c = needle[suf.len()..].to_vec();
+            break;
+        }
+    }
+    let mut k = 0;
+    while c.len() < needle.len() + 2 {
+        c.push(if needle.is_empty() { b'a' } else { needle[k % needle.len()] });
+        k += 1;
+    }
+    c
+}
+
+fn nul_shape(n: &[u8]) -> &'static str {
+    let z = n.iter().filter(|&&b| b == 0).count();
+    if z == 0 {
+        "needle-nonul"
+    } else if z == n.len() {
+        "needle-only-nul"
+    } else if n[0] == 0 {
+        "needle-starts-with-nul"
+    } else if n[n.len() - 1] == 0 && z == 1 {
+        "needle-ends-in-nul"
+    } else {
+        "needle-contains-nul"
+    }
+}
+
+/// `x`: NUL-free haystack content; `needle`: arbitrary bytes.
+/// HEAD's definition of find_buf (established by experiment, 91549aa): first occurrence in the
+/// haystack slice INCLUDING its terminator, None when the needle is longer than that slice. For a
+/// needle containing NUL a search over the content only (= None) is accepted as well; what is never
+/// accepted is an answer that depends on the bytes behind the haystack.
+fn bytes_pair(st: &mut St, x: &[u8], needle: &[u8]) {
+    let mut raw = x.to_vec();
+    raw.push(0);
+    let want_raw = if needle.len() > raw.len() { None } else { refm::find(&raw, needle) };
+    let want_content = refm::find(x, needle);
+    let has_nul = needle.contains(&0);
+    let accepts = |g: Option<usize>| g == want_raw || (has_nul && g == want_content);
+    let wants = if has_nul && want_raw != want_content { format!("{want_raw:?} (or {want_content:?})") } else { format!("{want_raw:?}") };
+
+    let cont1 = wanted_continuation(&raw, needle);
+    let cont2: Vec<u8> = cont1.iter().map(|&b| if b == 0x7e { 0x7d } else { 0x7e }).collect();
+    let mut buf1 = raw.clone();
+    buf1.extend_from_slice(&cont1);
+    let mut buf2 = raw.clone();
+    buf2.extend_from_slice(&cont2);
+    let h1 = mk(&buf1[..raw.len()]);
+    let h2 = mk(&buf2[..raw.len()]);
+    let nb: Box<[u8]> = needle.to_vec().into_boxed_slice();
+
+    // --- find_buf, twice with different memory behind the haystack, then in an exact allocation
+    st.op("find_buf");
+    st.op("find_buf");
+    let g1 = vh::catch(|| h1.find_buf(&nb));
+    let g2 = vh::catch(|| h2.find_buf(&nb));
+    if g1 != g2 {
+        st.viol(
+            "result-depends-on-memory-after-haystack",
+            "find_buf",
+            x,
+            needle,
+            &format!("{g1:?} with {:?} behind the haystack, {g2:?} with {:?}", String::from_utf8_lossy(&cont1), String::from_utf8_lossy(&cont2)),
+            &wants,
+        );
+    }
+    for g in [&g1, &g2] {
+        match g {
+            Err(p) => st.viol("panic", "find_buf", x, needle, &format!("panic: {p}"), &wants),
+            Ok(v) => {
+                if !accepts(*v) {
+                    st.viol("wrong-index", "find_buf", x, needle, &format!("{v:?}"), &wants);
+                }
+            }
+        }
+    }
+    let hx = exact(x);
+    let ux = mk(&hx);
+    st.op("find_buf");
+    match vh::catch(|| ux.find_buf(&nb)) {
+        Err(p) => st.viol("panic", "find_buf", x, needle, &format!("panic: {p}"), &wants),
+        Ok(v) => {
+            if !accepts(v) {
+                st.viol("wrong-index", "find_buf", x, needle, &format!("{v:?}"), &wants);
+            }
+            if st.take_sample("find_buf-bytes") {
+                st.sample("find_buf", x, needle, &format!("{v:?}"), &wants);
+            }
+        }
+    }
+    // --- find with the same needle as a UnixStr (NUL-free needles only), same two continuations
+    if !has_nul {
+        let ne = exact(needle);
+        let un = mk(&ne);
+        let want = refm::find(x, needle);
+        st.op("find");
+        st.op("find");
+        let f1 = vh::catch(|| h1.find(un));
+        let f2 = vh::catch(|| h2.find(un));
+        if f1 != f2 {
+            st.viol("result-depends-on-memory-after-haystack", "find", x, needle, &format!("{f1:?} / {f2:?}"), &format!("{want:?}"));
+        }
+        for f in [&f1, &f2] {
+            match f {
+                Err(p) => st.viol("panic", "find", x, needle, &format!("panic: {p}"), &format!("{want:?}")),
+                Ok(v) => {
+                    if *v != want {
+                        st.viol("wrong-index", "find", x, needle, &format!("{v:?}"), &format!("{want:?}"));
+                    }
+                }
+            }
+        }
+    }
+    // --- match_up_to_str with text that may contain NUL and multi-byte characters (FF -> U+E9)
+    let to_text = |b: &[u8]| -> Vec<u8> {
+        let mut v = Vec::new();
+        for &c in b {
+            if c == 0xFF {
+                v.extend_from_slice("\u{e9}".as_bytes());
+            } else {
+                v.push(c);
+            }
+        }
+        v
+    };
+    let (tx, ty) = (to_text(x), to_text(needle));
+    if let Ok(ys) = std::str::from_utf8(&ty) {
+        let want = refm::common_prefix(&tx, &ty);
+        let mut traw = tx.clone();
+        traw.push(0);
+        // the str is followed in memory by self's continuation; self by two different continuations
+        let mut sb = ty.clone();
+        sb.extend_from_slice(&traw[want..]);
+        sb.push(b'#');
+        if let Ok(backing) = std::str::from_utf8(&sb) {
+            let other = &backing[..ys.len()];
+            let mut b1 = traw.clone();
+            b1.extend_from_slice(&ty[want.min(ty.len())..]);
+            b1.extend_from_slice(b"##");
+            let mut b2 = traw.clone();
+            b2.extend_from_slice(b"~~~~~~~~");
+            let m1 = vh::catch(|| mk(&b1[..traw.len()]).match_up_to_str(other));
+            let m2 = vh::catch(|| mk(&b2[..traw.len()]).match_up_to_str(other));
+            st.op("match_up_to_str");
+            st.op("match_up_to_str");
+            if m1 != m2 {
+                st.viol("result-depends-on-memory-after-haystack", "match_up_to_str", &tx, &ty, &format!("{m1:?} / {m2:?}"), &want.to_string());
+            }
+            for m in [&m1, &m2] {
+                match m {
+                    Err(p) => st.viol("panic", "match_up_to_str", &tx, &ty, &format!("panic: {p}"), &want.to_string()),
+                    Ok(v) => {
+                        if *v != want {
+                            st.viol("wrong-length", "match_up_to_str", &tx, &ty, &v.to_string(), &want.to_string());
+                        }
+                    }
+                }
+            }
+        }
+    }
+    let rel = if needle.len() == x.len() + 1 {
+        "needle-len=content+1"
+    } else if needle.len() > x.len() + 1 {
+        "needle-longer"
+    } else if needle.is_empty() {
+        "needle-empty"
+    } else {
+        "needle-fits"
+    };
+    st.classes.note(["bytes", len_class(x.len()), nul_shape(needle), rel, pos_class(&raw, needle, want_raw), ""]);
+}
+
 fn show(o: Option<&[u8]>) -> String {
     match o {
         None => "None".into(),
@@ -463,6 +653,27 @@ fn exh(seed: u64, maxlen: usize, modulus: u64, res: u64, ops: Ops, ulen: usize) 
             };
             pair(&mut st, &x, &y);
         }
+        if ops.bytes {
+            let (hl, nl) = ((maxlen.max(1) - 1).min(5), maxlen.min(6));
+            let nb = (count_upto(3, hl) * count_upto(4, nl) / modulus).max(1);
+            for k in 0..nb {
+                let x = sample_string(&mut r, &HAY_BYTES, hl, k % 2 == 1);
+                let y = match k % 4 {
+                    // a tail of the haystack followed by the terminator and possibly more
+                    0 if !x.is_empty() => {
+                        let mut v = x[r.below(x.len() as u64) as usize..].to_vec();
+                        v.push(0);
+                        if r.chance(1, 2) {
+                            v.push(*r.pick(&NEEDLE_BYTES));
+                        }
+                        v
+                    }
+                    _ => sample_string(&mut r, &NEEDLE_BYTES, nl, k % 2 == 1),
+                };
+                bytes_pair(&mut st, &x, &y);
+            }
+            vh::count("sampled_byte_needle_pairs", nb);
+        }
         vh::count("sampled_pairs", np);
         vh::count("sampled_unary_paths", nu);
         st.finish();
@@ -480,7 +691,8 @@ fn exh(seed: u64, maxlen: usize, modulus: u64, res: u64, ops: Ops, ulen: usize) 
     }
     // pairs with an empty second operand go last: under Miri / ASan the first report ends the
     // process, and the boundary pairs are where reports are expected
-    for pass in 0..2 {
+    let any_pair_op = ops.find || ops.mtch || ops.mstr || ops.ends || ops.path;
+    for pass in 0..(if any_pair_op { 2 } else { 0 }) {
         for (i, x) in ss.iter().enumerate() {
             for (j, y) in ss.iter().enumerate() {
                 if y.is_empty() != (pass == 1) {
@@ -492,6 +704,23 @@ fn exh(seed: u64, maxlen: usize, modulus: u64, res: u64, ops: Ops, ulen: usize) 
                 }
             }
         }
+    }
+    if ops.bytes {
+        // haystack content over {a,'/',FF}, needles over {00,a,'/',FF} one byte longer
+        let (hl, nl) = ((maxlen.max(1) - 1).min(5), maxlen.min(6));
+        let hs = all_strings(&HAY_BYTES, hl);
+        let ns = all_strings(&NEEDLE_BYTES, nl);
+        let m = ns.len() as u64;
+        let mut bp = 0u64;
+        for (i, x) in hs.iter().enumerate() {
+            for (j, y) in ns.iter().enumerate() {
+                if selected((1 << 55) + i as u64 * m + j as u64, seed, modulus, res) {
+                    bytes_pair(&mut st, x, y);
+                    bp += 1;
+                }
+            }
+        }
+        vh::count("exhaustive_byte_needle_pairs", bp);
     }
     vh::count("exhaustive_pairs", pairs);
     vh::count("exhaustive_unary_paths", unaries);
@@ -559,6 +788,38 @@ fn rand(seed: u64, n: u64, maxlen: usize, ops: Ops) {
         pair(&mut st, &h, &needle);
         if i % 3 == 0 {
             pair(&mut st, &needle, &h);
+        }
+        if ops.bytes {
+            // caller bytes: NUL / FF inside, at the start, at the end; the terminator position
+            let mut bn = needle.clone();
+            match r.below(8) {
+                0 => bn.push(0),                                       // ends in NUL
+                1 => {
+                    bn = h[h.len() - nlen.min(h.len())..].to_vec();    // tail + terminator (+ more)
+                    bn.push(0);
+                    if r.chance(1, 2) {
+                        bn.push(*r.pick(&[b'a', 0u8, 0xFF, b'/']));
+                    }
+                }
+                2 => bn.insert(0, 0),                                  // starts with NUL
+                3 => {
+                    let k = r.below(bn.len() as u64 + 1) as usize;    // NUL somewhere
+                    bn.insert(k, 0);
+                }
+                4 => {
+                    bn = h.clone();                                    // whole content + one byte
+                    bn.push(*r.pick(&[0u8, b'a', 0xFF]));
+                }
+                5 => bn = vec![0u8; 1 + r.below(3) as usize],
+                6 => {
+                    if !bn.is_empty() {
+                        let k = r.below(bn.len() as u64) as usize;
+                        bn[k] = 0xFF;
+                    }
+                }
+                _ => {}
+            }
+            bytes_pair(&mut st, &h, &bn);
         }
         if i % 4 == 0 {
             unary(&mut st, &h);
